@@ -68,20 +68,26 @@ def _panel(env, pubs):
         out.append((pubs, 1, gpg))
         out.append((pubs, 2, gpg))
         out.append((pubs[:1], 1, gpg))
+    # and the way most callers ask: without saying which kind of signature they expect (documented default: raw ed25519)
+    out.append((pubs, 1, None))
+    out.append((pubs[:1], 1, None))
     return out
 
 
 def _verdicts(env, pubs):
     v = []
     for auth, thr, gpg in _panel(env, pubs):
-        v.append(RV.outcome(A.verify_signable, copy.deepcopy(env), auth, thr, gpg=gpg)[0])
+        if gpg is None:
+            v.append(RV.outcome(A.verify_signable, copy.deepcopy(env), auth, thr)[0])
+        else:
+            v.append(RV.outcome(A.verify_signable, copy.deepcopy(env), auth, thr, gpg=gpg)[0])
     return v
 
 
 def _expected_verdicts(env, pubs):
     v = []
     for auth, thr, gpg in _panel(env, pubs):
-        v.append(RV.signable(env, auth, thr, gpg))
+        v.append(RV.signable(env, auth, thr, bool(gpg)))       # None = argument left out = the documented default, raw mode
     return v
 
 
